@@ -212,6 +212,14 @@ def run(ctx: Any, prog: Program) -> None:
     loops = [n for n in walk_no_nested(fi) if isinstance(n, ast.For)]
     ok2 = any(isinstance(s, ast.Assign) and isinstance(s.targets[0], ast.Subscript) and dotted(s.targets[0].value) == 'self' for l in loops for s in ast.walk(l))
     ctx.check('C08.D5', ok and ok2, vm, fi, 'EntityFixup.__init__ must keep an index only if unused so far and re-insert the rest through self[var] = value', text='init de-duplicates indexes')
+    # the re-insertion must be deferred until every first-pass value is stored: __setitem__ picks the lowest index unused *so far*
+    first_pass = [l for l in loops if 'used_indexes' in ast.unparse(l.body[0] if l.body else l)]
+    early = [s for l in first_pass for s in ast.walk(l) if isinstance(s, ast.Assign) and isinstance(s.targets[0], ast.Subscript) and dotted(s.targets[0].value) == 'self']
+    reserves = any('used_indexes.add' in ast.unparse(s) and 'self[' not in ast.unparse(s) for l in first_pass for s in l.body) and \
+        any(isinstance(c, ast.Call) and dotted(c.func) == 'used_indexes.add' and 'fix.id' not in ast.unparse(c) for l in first_pass for c in ast.walk(l))
+    ctx.check('C08.D5', not early or reserves, vm, early[0] if early else fi,
+              'a colliding fixup is re-indexed through self[...] = ... inside the first pass: the lowest index unused *so far* may be the legitimate index of a later entry, '
+              'which then keeps it too (two variables share one replaceNN)', text='init defers re-indexing of duplicates')
     fs = vm.func('EntityFixup.__setitem__')
     sets = [n for n in ast.walk(fs) if isinstance(n, ast.SetComp)]
     whiles = [n for n in ast.walk(fs) if isinstance(n, ast.While)]
@@ -242,6 +250,7 @@ def run(ctx: Any, prog: Program) -> None:
 
 
 MUTANTS = [
+    {'id': 'fixup_reindex_in_first_pass', 'file': 'vmf.py', 'find': "            else:\n                extra_vals.append(fix)\n", 'replace': "            else:\n                self[fix.var] = fix.value\n", 'expect': 'C08.D5'},
     {'id': 'return_without_reserve', 'file': 'vmf.py', 'find': "            if poss_id not in self:\n                self._used.add(poss_id)\n", 'replace': "            if poss_id not in self:\n", 'expect': 'C08.D1'},
     {'id': 'desired_zero_allowed', 'file': 'vmf.py', 'find': "        if desired > 0 and desired not in self._used:", 'replace': "        if desired >= 0 and desired not in self._used:", 'expect': 'C08.D1'},
     {'id': 'desired_not_checked_free', 'file': 'vmf.py', 'find': "        if desired > 0 and desired not in self._used:", 'replace': "        if desired > 0:", 'expect': 'C08.D1'},
